@@ -77,6 +77,30 @@ fn check_pair(st: &mut St<X>, a: u8, b: u8) {
     if shifted != got {
         st.rep.violation("the score ignores suit shifting", "Two::chen_formula", inp(), format!("{}", got), format!("{} after shift_suit", shifted));
     }
+    // ... and keeps ignoring it however often the hand is shifted (a shifted hand is a hand like any other:
+    // its score, suitedness and gap must still be those of the two ranks), in both slot orders
+    for start in [t, Two::new(wb, wa)] {
+        let mut cur = start;
+        for n in 1..=5u32 {
+            cur = cur.shift_suit();
+            st.rep.evaluations += 3;
+            let s = cur.chen_formula() as i32;
+            if s != want {
+                st.rep.violation("the score ignores suit shifting (repeated shifts)", "Two::chen_formula after shift_suit chain", inp(), format!("{}", want), format!("{} after {} shifts", s, n));
+                break;
+            }
+            if cur.is_suited() != suited || cur.get_gap() != gap {
+                st.rep.violation(
+                    "suitedness and gap ignore suit shifting (repeated shifts)",
+                    "Two::is_suited / get_gap after shift_suit chain",
+                    inp(),
+                    format!("suited {} gap {}", suited, gap),
+                    format!("suited {} gap {} after {} shifts", cur.is_suited(), cur.get_gap(), n),
+                );
+                break;
+            }
+        }
+    }
 }
 
 fn check_card_points(rep: &mut Rep, i: u8) {
